@@ -44,7 +44,7 @@ Definition TracerouteRequest : N := 130.
 Definition TracerouteReply : N := 131.
 
 (** SCMP.NextLayerType for the error messages: length of the message-specific
-    header (DestinationUnreachable, PacketTooBig, ParameterProblem,
+    header (DestinationUnreachable, PacketTooBig, Param.Problem,
     ExternalInterfaceDown, InternalConnectivityDown); None = the payload is not
     interpreted ("unsupported SCMP error message"). *)
 Definition scmp_err_hdr (ty : N) : option nat :=
@@ -290,6 +290,29 @@ Fixpoint registered (ops : list op) (acc : list inst) : list inst :=
     let a := {| i_svc := s; i_ip := ip; i_port := p |} in
     registered r (filter (fun x => negb (inst_eqb a x)) acc)
   | _ :: r => registered r acc
+  end.
+
+Definition range_of (ov : option (N * N)) (t : topo_range) : range :=
+  {| r_start := fst (override ov (topo_pair t)); r_end := snd (override ov (topo_pair t));
+     r_redirect := endhost_port |}.
+
+(** the range the property calls "configured": the one of the last SetPortRange
+    (router-config override applied), the empty one if there was none *)
+Definition configured (ov : option (N * N)) (ops : list op) : range :=
+  match last_range ops None with
+  | None => prov init
+  | Some t => range_of ov t
+  end.
+
+(** what "registered" means: the last call about an instance was AddSvc *)
+Fixpoint last_about (i : inst) (ops : list op) (acc : option bool) : option bool :=
+  match ops with
+  | [] => acc
+  | OAddSvc s ip p :: r =>
+    last_about i r (if inst_eqb {| i_svc := s; i_ip := ip; i_port := p |} i then Some true else acc)
+  | ODelSvc s ip p :: r =>
+    last_about i r (if inst_eqb {| i_svc := s; i_ip := ip; i_port := p |} i then Some false else acc)
+  | _ :: r => last_about i r acc
   end.
 
 Definition outcome_eqb (a b : outcome) : bool :=
